@@ -161,6 +161,41 @@ def m_opt_take(interp, fn, args, st, site, frame):
     return out
 
 
+def m_opt_replace(interp, fn, args, st, site, frame):
+    """opt.replace(v): the old value is returned, Some(v) is stored (logged like an assignment to the place)"""
+    a = args[0]
+    if not isinstance(a, Ref):
+        return None
+    out = []
+    for (v, st2) in opt_cases(interp, a, st, "opt@" + site):
+        interp.write_at(a.addr, a.path, some(args[1]), st2)
+        out.append((v, st2))
+    return out
+
+
+def m_res_err(interp, fn, args, st, site, frame):
+    out = []
+    for (v, st2) in res_cases(interp, args[0], st, "res@" + site):
+        out.append((some(v.fields[0]) if v.variant == 1 else NONE, st2))
+    return out
+
+
+def m_iter_once(interp, fn, args, st, site, frame):
+    """std::iter::once(v): a one-element iterator"""
+    if len(args) != 1:
+        return None
+    return [(Adt("it:array", 0, (Adt("array", 0, (args[0],)), Const(0, "usize"))), st)]
+
+
+def m_opt_into_iter(interp, fn, args, st, site, frame):
+    """Option<T>::into_iter(): zero or one element"""
+    out = []
+    for (v, st2) in opt_cases(interp, args[0], st, "opt@" + site):
+        elems = () if v.variant == 0 else (v.fields[0],)
+        out.append((Adt("it:array", 0, (Adt("array", 0, elems), Const(0, "usize"))), st2))
+    return out
+
+
 def m_opt_or(interp, fn, args, st, site, frame):
     out = []
     for (v, st2) in opt_cases(interp, args[0], st, "opt@" + site):
@@ -243,6 +278,19 @@ def m_opt_map(interp, fn, args, st, site, frame):
 def _call_fnlike(interp, f, argv, st, frame, site, what):
     """call a closure value or a function item passed by value; None when it cannot be resolved"""
     if isinstance(f, FnV):
+        dk = str(f.fn.get("dk", ""))
+        if dk.startswith("Ctor("):
+            # a tuple-variant / tuple-struct constructor used as a function (`.map(Event::Timeout)`): build the value
+            path = f.fn.get("rpath") or f.fn.get("path") or ""
+            if "Variant" in dk and "::" in path:
+                owner, vname = path.rsplit("::", 1)
+                adt = interp.prog.adts_by_name.get(owner)
+                if adt is not None:
+                    for vix, var in enumerate(adt["variants"]):
+                        if var["name"] == vname:
+                            return [(Adt(owner, vix, tuple(argv), vname), st)]
+            elif "Struct" in dk and path in interp.prog.adts_by_name:
+                return [(Adt(path, 0, tuple(argv), path.rsplit("::", 1)[-1]), st)]
         try:
             return interp.call_fn(f.fn, list(argv), st, "%s~%s" % (site, what), frame)
         except Budget:
@@ -319,13 +367,13 @@ def m_opt_filter(interp, fn, args, st, site, frame):
             out.append((NONE, st2))
             continue
         payload = v.fields[0]
-        st2.counter += 1
-        cell = ("h", "filter", site, st2.counter)
+        cell = ("h", "filter", site, frame.depth)     # deterministic scratch cell: re-execution in a loop reproduces the store
         st2.heap[cell] = payload
         r = _call_fnlike(interp, args[1], [Ref(cell, (), False)], st2, frame, site, "filter")
         if r is None:
             return None
         for (b, st3) in r:
+            st3.heap.pop(cell, None)
             b = interp.concretize(b, st3)
             if isinstance(b, Const):
                 out.append((v if b.v else NONE, st3))
@@ -709,6 +757,15 @@ def m_from_be_bytes(interp, fn, args, st, site, frame):
 def m_iter_chain(interp, fn, args, st, site, frame):
     if len(args) == 2 and all(isinstance(a, Adt) and a.name.startswith("it:") for a in args):
         return [(Adt("it:chain", 0, (args[0], args[1])), st)]
+    if len(args) == 2 and isinstance(args[0], Adt) and args[0].name.startswith("it:"):
+        b = interp.concretize(args[1], st)
+        is_opt = (isinstance(b, Adt) and b.name == OPTION) or (isinstance(b, Top) and isinstance(b.ty, TyRef) and adt_base_name(b.ty.s) == OPTION)
+        if is_opt:                      # chain(Some(x) / None): Option is IntoIterator
+            out = []
+            for (v, st2) in opt_cases(interp, b, st, "opt@" + site):
+                elems = () if v.variant == 0 else (v.fields[0],)
+                out.append((Adt("it:chain", 0, (args[0], Adt("it:array", 0, (Adt("array", 0, elems), Const(0, "usize"))))), st2))
+            return out
     return None
 
 
@@ -1276,6 +1333,10 @@ BASE_MODELS = [
     (r"^std::option::Option::<.*>::as_ref$|^std::option::Option::<.*>::as_mut$", m_opt_as_ref),
     (r"^std::option::Option::<.*>::take$", m_opt_take),
     (r"^std::option::Option::<.*>::or$", m_opt_or),
+    (r"^std::option::Option::<.*>::replace$", m_opt_replace),
+    (r"^std::result::Result::<.*>::err$", m_res_err),
+    (r"^std::iter::once::<.*>$|^std::iter::once$", m_iter_once),
+    (r"^<std::option::Option<.*> as std::iter::IntoIterator>::into_iter$", m_opt_into_iter),
     (r"^std::option::Option::<&.*>::(cloned|copied)$", m_opt_cloned),
     (r"^std::option::Option::<.*>::ok_or_else", m_opt_ok_or_else),
     (r"^std::option::Option::<.*>::ok_or", m_opt_ok_or),
